@@ -6,7 +6,7 @@
 use crate::engine::*;
 use crate::gen::dense_u32;
 use proptest::prelude::*;
-use rpki::rtr::state::Serial;
+use rpki::rtr::state::{Serial, State};
 use serde::{Deserialize, Serialize};
 use serde_json::json;
 use std::cmp::Ordering;
@@ -15,7 +15,7 @@ pub const RULE: &str = "enumeration, no sampling: sub-check cmp = for each base 
 thorough: 0,1,2^31-1,2^31,2^31+1,2^32-2,2^32-1,0x12345678 + 24 seed-derived) every d in [0,2^32): \
 Serial(b) vs Serial(b+d mod 2^32) in both directions and ==, oracle = RFC 1982 table on d; sub-check add = \
 every n in [0,2^31-1] per base; sub-check wire = every u32. A case is one chunk of 2^22 consecutive d (or n, \
-or values); sub-check pairs = random (a, b, n) from a boundary-dense strategy (b absolute or relative to a), same oracle, so that bases outside the enumerated set are sampled too; non-trivial = evaluations with d != 0 (n != 0), distinct by construction of the enumeration \
+or values); sub-check pairs = random (a, b, n) from a boundary-dense strategy (b absolute or relative to a), same oracle (partial_cmp and all six operators), so that bases outside the enumerated set are sampled too, plus State::inc == add(1) (session untouched, strictly greater, also from 2^32-1), equal serials hash equally, u32 <-> Serial conversions keep the value; non-trivial = evaluations with d != 0 (n != 0), distinct by construction of the enumeration \
 (each (base,d) visited once), counted while enumerating.";
 
 const CHUNK_BITS: u32 = 22;
@@ -76,7 +76,11 @@ fn run_cmp(c: &Chunk, obs: &mut Obs) -> CheckResult {
             .with_case(json!({"base": c.base, "start": d as u64, "len": 1})));
         }
         // comparison operators derived from partial_cmp
-        if (a < b) != (exp == Some(Ordering::Less)) || (a > b) != (exp == Some(Ordering::Greater)) {
+        if (a < b) != (exp == Some(Ordering::Less)) || (a > b) != (exp == Some(Ordering::Greater))
+            || (a <= b) != matches!(exp, Some(Ordering::Less | Ordering::Equal))
+            || (a >= b) != matches!(exp, Some(Ordering::Greater | Ordering::Equal))
+            || (a != b) != (d != 0)
+        {
             return Err(Fail::sig("cmp", format!("operators disagree for base {} d {}", c.base, d))
                 .with_case(json!({"base": c.base, "start": d as u64, "len": 1})));
         }
@@ -204,7 +208,24 @@ fn run_pair(c: &Pair, obs: &mut Obs) -> CheckResult {
     if c.n != 0 {
         ensure!(s > a && a < s && s != a, "Serial({}).add({}) = {:?} is not strictly greater", c.a, c.n, s);
     }
+    // the other public way of advancing a serial: State::inc (documented as "increases the serial
+    // number by one", wrapping) must agree with add(1) and leave the session alone
+    let session = (c.b ^ c.n) as u16;
+    let mut st = State::from_parts(session, a);
+    st.inc();
+    ensure!(st.serial().0 == c.a.wrapping_add(1) && st.session() == session,
+        "State::from_parts({}, Serial({})).inc() gives session {} serial {:?}", session, c.a, st.session(), st.serial());
+    ensure!(st.serial() > a && a < st.serial() && st.serial() != a && st.serial() == a.add(1),
+        "State::inc on Serial({}) is not strictly greater / differs from add(1): {:?}", c.a, st.serial());
+    // equal serials are interchangeable (hash), conversions to and from u32 keep the value
+    if d == 0 {
+        use std::hash::{Hash, Hasher};
+        let h = |s: Serial| { let mut h = std::collections::hash_map::DefaultHasher::new(); s.hash(&mut h); h.finish() };
+        ensure!(h(a) == h(b), "equal serials {} hash differently", c.a);
+    }
+    ensure!(u32::from(a) == c.a && Serial::from(c.a) == a && Serial::from(c.a).0 == c.a, "u32 <-> Serial conversion changes {}", c.a);
     obs.nontrivial_if(d != 0);
+    obs.label_if(c.a == u32::MAX, "inc-wraps");
     obs.label_if(d == 0x8000_0000, "d=2^31");
     obs.label_if((c.a as u64 + c.n as u64) > u32::MAX as u64, "add-wraps");
     Ok(())
@@ -227,7 +248,7 @@ pub fn property() -> Property {
                 strategy: pair_strategy,
                 cases: |t| t.pick(8_000_000, 200_000_000),
                 run: run_pair,
-                floors: &[("d=2^31", 0.001), ("add-wraps", 0.02)],
+                floors: &[("d=2^31", 0.001), ("add-wraps", 0.02), ("inc-wraps", 0.01)],
             }
             .boxed(),
         ],
